@@ -147,6 +147,13 @@ func c03Build(cs c03Case) (file []byte, bases, sizes []int64, payloads [][]byte,
 	return
 }
 
+// c03Obj is one cache object created by a history (it can be attached again later).
+type c03Obj struct {
+	raw bgzf.Cache
+	log *c03Log
+	rec *cache.StatsRecorder
+}
+
 // c03Log is a pass-through cache that records the calls the reader makes.
 type c03Log struct {
 	in    bgzf.Cache
@@ -220,6 +227,7 @@ func c03RunImpl(file []byte, bases []int64, cs c03Case, rd int, cached, logging 
 	var curRec *cache.StatsRecorder
 	var logs []*c03Log
 	hintAt := map[int]*c03Log{}
+	var objs []c03Obj
 	chunk := func() string {
 		c := r.LastChunk()
 		return fmt.Sprintf("%d,%d,%d,%d", c.Begin.File, c.Begin.Block, c.End.File, c.End.Block)
@@ -264,11 +272,26 @@ func c03RunImpl(file []byte, bases []int64, cs c03Case, rd int, cached, logging 
 			}
 			calls = append(calls, "")
 			continue
+		case 'z':
+			// let the read-ahead goroutine run until it has nothing left to do
+			time.Sleep(3 * time.Millisecond)
+			out = "-/ok/" + chunk()
 		case 'c':
 			if cached {
 				cur, curRec = nil, nil
 				if op == "c-" {
 					r.SetCache(nil)
+				} else if op[1] == '=' {
+					// attach again the k-th cache object created in this history, with whatever it holds
+					k, _ := strconv.Atoi(op[2:])
+					if k < len(objs) {
+						cur, curRec = objs[k].log, objs[k].rec
+						if cur != nil {
+							r.SetCache(cur)
+						} else {
+							r.SetCache(objs[k].raw)
+						}
+					}
 				} else {
 					a := strings.Split(op[1:], ",")
 					n, _ := strconv.Atoi(a[1])
@@ -282,6 +305,7 @@ func c03RunImpl(file []byte, bases []int64, cs c03Case, rd int, cached, logging 
 					} else {
 						r.SetCache(c)
 					}
+					objs = append(objs, c03Obj{c, cur, rec})
 				}
 			}
 			out = "-/ok/" + chunk()
@@ -294,7 +318,7 @@ func c03RunImpl(file []byte, bases []int64, cs c03Case, rd int, cached, logging 
 		}
 	}
 	for i := range cs.Ops {
-		if l := hintAt[i]; l != nil && len(l.hints) > 0 && strings.HasSuffix(strings.Split(cs.Ops[i][1:], ",")[0], "R") {
+		if l := hintAt[i]; l != nil && len(l.hints) > 0 && cs.Ops[i][1] != '=' && strings.HasSuffix(strings.Split(cs.Ops[i][1:], ",")[0], "R") {
 			hints = append(hints, ","+strings.Join(l.hints, ","))
 		} else {
 			hints = append(hints, "")
@@ -519,10 +543,12 @@ func c03GenOps(rnd *Rand, lens []int, kind string, cp int, nops int, setAt int) 
 		total += l
 	}
 	var recent []int // members touched recently (revisit bias)
+	made := 0        // cache objects created so far
 	cur := 0
 	for i := 0; i < nops; i++ {
 		if i == setAt {
 			ops = append(ops, fmt.Sprintf("c%s,%d", kind, cp))
+			made++
 			continue
 		}
 		switch x := rnd.intn(100); {
@@ -566,10 +592,16 @@ func c03GenOps(rnd *Rand, lens []int, kind string, cp int, nops int, setAt int) 
 			ops = append(ops, "b")
 		case x < 93:
 			ops = append(ops, fmt.Sprintf("B%d", rnd.intn(2)))
-		case x < 96 && i > setAt:
+		case x < 95 && i > setAt:
 			ops = append(ops, fmt.Sprintf("c%s,%d", c03Kinds[rnd.intn(len(c03Kinds))], rnd.rng(1, 4)))
+			made++
 		case x < 97 && i > setAt:
 			ops = append(ops, "c-")
+		case x < 99 && i > setAt:
+			// attach again a cache object used earlier in this history (still holding its blocks)
+			ops = append(ops, fmt.Sprintf("c=%d", rnd.intn(made)))
+		case x < 100 && i > setAt:
+			ops = append(ops, "z") // give the read-ahead goroutine time to run dry
 		default:
 			ops = append(ops, "r2")
 		}
@@ -621,6 +653,43 @@ type c03Ctx struct {
 	cfg      string
 }
 
+// c03KindAt names the cache attached when call i is made: its kind, plus ".reattached" when that cache object
+// had been replaced (by SetCache(nil) or another cache) and attached again earlier in the history.
+func c03KindAt(ops []string, i int) string {
+	var kinds []string
+	var detached []bool
+	cur, re := -1, false
+	for j := 0; j <= i && j < len(ops); j++ {
+		op := ops[j]
+		if op[0] != 'c' {
+			continue
+		}
+		if cur >= 0 {
+			detached[cur] = true
+		}
+		switch {
+		case op == "c-":
+			cur, re = -1, false
+		case op[1] == '=':
+			k, _ := strconv.Atoi(op[2:])
+			if k < len(kinds) {
+				cur, re = k, detached[k]
+			}
+		default:
+			kinds = append(kinds, c14KindName[strings.Split(op[1:], ",")[0]])
+			detached = append(detached, false)
+			cur, re = len(kinds)-1, false
+		}
+	}
+	if cur < 0 {
+		return "none"
+	}
+	if re {
+		return kinds[cur] + ".reattached"
+	}
+	return kinds[cur]
+}
+
 // judge compares cached with uncached (oracle) and queues the model line (rd = 1).
 func (x *c03Ctx) judge(cs c03Case, ans c03Answer, status, msg, frame string, model bool) (failed bool) {
 	res := x.res
@@ -642,6 +711,11 @@ func (x *c03Ctx) judge(cs c03Case, ans c03Answer, status, msg, frame string, mod
 		if cs.Ops[i] != "S" && (i >= len(ans.Cached) || ans.Cached[i] != ans.Uncached[i]) {
 			anyDiff = true
 		}
+	}
+	if strings.HasPrefix(cs.Tag, "witness:") && (status != "ok" || ans.Panic != "" || anyDiff) {
+		res.fail(strings.TrimPrefix(cs.Tag, "witness:"),
+			fmt.Sprintf("%s cache, rd=%d: %s %s%s (%s)", kind, cs.Rd, status, msg, ans.Panic, frame), cs)
+		return true
 	}
 	if cs.Tag == "witness-seekhit" && (status != "ok" || ans.Panic != "" || anyDiff) {
 		res.fail("c03.rd>1.seek-cache-hit.worker-not-redirected",
@@ -666,6 +740,8 @@ func (x *c03Ctx) judge(cs c03Case, ans c03Answer, status, msg, frame string, mod
 	}
 	for i := range ans.Uncached {
 		if i >= len(ans.Cached) || ans.Cached[i] != ans.Uncached[i] {
+			// the cache attached at this call, and whether it had been detached and attached again before
+			kind = c03KindAt(cs.Ops, i)
 			got := "(missing)"
 			if i < len(ans.Cached) {
 				got = ans.Cached[i]
@@ -699,11 +775,11 @@ func (x *c03Ctx) judge(cs c03Case, ans c03Answer, status, msg, frame string, mod
 			fifo = true
 		}
 	}
-	if fifo && x.cfg[0] == '0' && model {
+	if fifo && (x.cfg[0] == '0' || x.cfg[3] == '0') && model {
 		// Without repair C03-2 a FIFO cache ends up indexing blocks the reader has overwritten; from then on the
 		// implementation's remove() deletes table[current base] while the model deletes the node's key (documented
 		// simplification of Hts.Model.Cache).  The oracle judges these histories; the model is not compared.
-		res.hist("model not compared: FIFO on a tree without repair C03-2")
+		res.hist("model not compared: FIFO on a tree without repair C03-2 or C03-5")
 		model = false
 	}
 	if model && cs.Rd == 1 && len(ans.Cached) == len(cs.Ops) {
@@ -812,7 +888,7 @@ func checkC03(c *ctx) {
 		"SetCache(kind, capacity 1..4) at a random point (and again later, and SetCache(nil)); 3 in 4 seeks revisit a member touched at most capacity+1 seeks ago; " +
 		"each history is run uncached (rd=1) and with the cache for rd=1 (compared with the Lean model call by call, including the reader's Get/Put calls on the cache) and rd=2,3. " +
 		"A case is non-trivial when the cached run makes at least one cache hit or eviction; distinct = distinct (file, history, kind, capacity, rd)."
-	x := &c03Ctx{c: c, res: res, cfg: "000"}
+	x := &c03Ctx{c: c, res: res, cfg: "0000"}
 	if c.replay != "" {
 		var cs c03Case
 		if err := loadReplay(c.replay, &cs); err != nil {
@@ -928,9 +1004,69 @@ func checkC03(c *ctx) {
 			failReset = "1"
 		}
 	}
+	// A FIFO (which keeps the used block it hands out) is detached, the reader moves on, the same FIFO is attached again.
+	lent := "1"
+	for _, k := range []string{"F", "SF"} {
+		cs := c03Case{Payloads: []string{"414141414141", "424242424242", "43434343"}, Rd: 1, Tag: "witness-reattach",
+			Ops: []string{"c" + k + ",4", "r8", "s0,0", "c-", "s2,0", "c=0", "s0,0", "r2"}}
+		ans, st, msg, fr := p0.ask(cs)
+		res.eval("witness-reattach"+k, true)
+		res.hist("witness: FIFO detached, reader moves on, same FIFO attached again")
+		if x.judge(cs, ans, st, msg, fr, false) {
+			lent = "0"
+		}
+		if st != "ok" {
+			p0, _ = c03Start()
+		}
+	}
+	// Seek served from the cache while every decompressor holds a stale read-ahead block (the goroutine has run dry):
+	// (a) reading on must find the next member; (b) a following Seek to the member at the head of `working` must return.
+	for _, w := range []struct {
+		sig string
+		ops []string
+	}{
+		{"c03.rd>1.seek-cache-hit.stale-readahead-blocks", []string{"cL,4", "s5,0", "s0,0", "z", "s5,0", "r100"}},
+		{"c03.rd>1.seek-cache-hit.control-not-drained", []string{"cL,4", "s5,0", "s0,0", "z", "s5,0", "s1,0", "r2"}},
+	} {
+		cs := c03Case{Payloads: []string{"4141", "4242", "4343", "4444", "4545", "4646", "4747"}, Marker: true, Rd: 2,
+			Tag: "witness:" + w.sig, Ops: w.ops}
+		bad := 0
+		const reps = 20
+		var first struct {
+			ans      c03Answer
+			st, m, f string
+		}
+		for rep := 0; rep < reps; rep++ {
+			ans, st, msg, fr := p0.askT(cs, 1500*time.Millisecond)
+			res.eval(fmt.Sprint(w.sig, rep), true)
+			res.hist("witness: Seek from the cache with all decompressors holding stale read-ahead blocks")
+			differs := false
+			for i := range ans.Uncached {
+				if i >= len(ans.Cached) || ans.Cached[i] != ans.Uncached[i] {
+					differs = true
+				}
+			}
+			if st != "ok" || ans.Panic != "" || differs {
+				if bad == 0 {
+					first.ans, first.st, first.m, first.f = ans, st, msg, fr
+				}
+				bad++
+			}
+			if st != "ok" {
+				p0, _ = c03Start()
+			}
+		}
+		res.note("witness %s: %d of %d runs failed", w.sig, bad, reps)
+		if bad >= reps/2 {
+			x.judge(cs, first.ans, first.st, first.m, first.f, false)
+		} else if bad > 0 {
+			cs.Tag = ""
+			x.judge(cs, first.ans, first.st, first.m, first.f, false)
+		}
+	}
 	p0.kill()
-	x.cfg = guardp + clear + failReset
-	res.note("code variant detected from the witnesses: peekGuard=%s clearOnRebase=%s failReset=%s (model run with this variant)", guardp, clear, failReset)
+	x.cfg = guardp + clear + failReset + lent
+	res.note("code variant detected from the witnesses: peekGuard=%s clearOnRebase=%s failReset=%s lentGuard=%s (model run with this variant)", guardp, clear, failReset, lent)
 	lap("witnesses")
 
 	// ---- random cases, W children
